@@ -1223,7 +1223,17 @@ func genMulti(r *rand.Rand, kind string, keys []string, uniq string, alien strin
 	}
 	switch kind {
 	case "string":
-		switch r.Intn(8) {
+		switch r.Intn(13) {
+		case 8, 9:
+			// writers that look before they write: between the two halves of a multi-key command they would see a
+			// state that never existed
+			return c("SETNX", a, uniq)
+		case 10:
+			return c("SET", a, uniq, "XX")
+		case 11:
+			return c("APPEND", a, "+"+uniq)
+		case 12:
+			return c("RENAME", a, b)
 		case 0, 1:
 			// whole-vector value: every key of the group gets the same unique tag
 			args := []string{"MSET"}
